@@ -489,7 +489,7 @@ class Gen:
         field_meta = {}
 
         def place(fname, ttext, size, align, attrs, vis_, docs, zero_array=False, doc_lines=None):
-            nonlocal cur, max_align, nregions
+            nonlocal cur, max_align, nregions, all_default
             field_meta[fname] = (vis_ == "pub ", doc_lines or [])
             a = 1 if packed else align
             natural = cur
@@ -501,6 +501,8 @@ class Gen:
                 if extra:
                     off += a * rng.randint(0, 3) if not packed else rng.randint(0, 5)
             explicit = off != natural or self.chance("p_addr")
+            if off - natural > 32:
+                all_default = False      # derive(Default) exists for arrays of at most 32 elements (documented fragment)
             nonlocal miss_here
             if self.want_miss() and natural > 0:
                 k = rng.random()
